@@ -1043,6 +1043,20 @@ func c13RoundRobin(c *Ctx) {
 	why := "Decode is not inside the attempt loop"
 	isDecSlice := func(v ssa.Value) bool {
 		cell := loadedCell(v)
+		if fa, isFA := cell.(*ssa.FieldAddr); isFA {
+			// struct form: the field the constructor fills from its decoder-list parameter
+			found := false
+			eachInstr(outer, func(i ssa.Instruction) {
+				if st, isSt := i.(*ssa.Store); isSt {
+					if f2, isF2 := st.Addr.(*ssa.FieldAddr); isF2 && f2.Field == fa.Field && types.Identical(f2.X.Type(), fa.X.Type()) {
+						if p, isP := st.Val.(*ssa.Parameter); isP && p.Parent() == outer {
+							found = true
+						}
+					}
+				}
+			})
+			return found
+		}
 		al, isAl := cell.(*ssa.Alloc)
 		if !isAl {
 			return false
@@ -1070,7 +1084,7 @@ func c13RoundRobin(c *Ctx) {
 			ok, why = false, "the number of attempts per call is not len(dec) (the loop is not a range over the decoder slice)"
 		}
 	}
-	if ok && d.Call.Args[len(d.Call.Args)-1] != ssa.Value(fn.Params[0]) {
+	if ok && d.Call.Args[len(d.Call.Args)-1] != ssa.Value(userParam(fn, 0)) {
 		// gob omits zero fields and the CSV/JSON decoders leave absent ones untouched: a retained
 		// scratch value carries fields over from the previous record (usually of another input)
 		ok, why = false, "the selected decoder does not decode straight into the caller's Result ("+describeVal(d.Call.Args[len(d.Call.Args)-1])+"): a retained scratch value carries fields over between inputs"
@@ -1153,6 +1167,9 @@ func c13RoundRobin(c *Ctx) {
 				if cell := rootCell(st.Addr); cell != nil && cell != seqCell {
 					if al, isAl := cell.(*ssa.Alloc); isAl && al.Parent() == outer && al != seqCell {
 						ok, why = false, "captured state other than the rotation counter is modified (e.g. the decoder slice shrinks while it is being ranged over)"
+					}
+					if fa, isFA := cell.(*ssa.FieldAddr); isFA && fa.X == ssa.Value(fn.Params[0]) && fn.Signature.Recv() != nil {
+						ok, why = false, "decoder state other than the rotation counter is modified (e.g. the decoder slice shrinks while it is being ranged over)"
 					}
 				}
 			}
